@@ -182,10 +182,12 @@ def run(ctx):
 META = {
     'technique': 'static analysis: symbolic value analysis against the stated formula and reference transcriptions '
                  '(FORMULA/AGREE incl. attribute state at exit), attribute writer sets (WHOWRITES), call presence (MUSTPASS)',
-    'level': 'Decides from the source that quantize_real is int(clip(round(factor*(x-mean)+target_mean), -2^(b-1), 2^(b-1)-1)) '
-             'with factor 0 for zero variance, that statistics come from the first min(n,len) samples, that the refresh counter '
-             'protocol (refresh iff counter==0, +1 per call, reset by equality with the period) and the custom-deviation '
-             'substitution are as stated, and that the complex quantiser routes real/imag parts to two separately constructed '
-             'real quantisers. Monotonicity for negative scale factors and NaN behaviour are not decided.',
+    'level': 'Decides from the source that quantize_real is int(clip(round(factor*(x-mean)+target_mean), -2^(b-1), 2^(b-1)-1))'
+             ' with factor 0 for zero variance, that statistics come from the first min(n,len) samples, that the refresh '
+             'counter protocol (refresh iff counter==0, +1 per call, reset by equality with the period) and the custom-'
+             'deviation substitution are as stated, and that the complex quantiser routes real/imag parts to two separately '
+             'constructed real quantisers. Monotonicity for negative scale factors and NaN behaviour are not decided. Also '
+             'decided (FLOATEQ): the zero-variance test is a tolerance test relative to |data_mean|, not an exact comparison '
+             'of the computed deviation with 0.',
     'note': 'Real arithmetic; numpy around/clip/astype semantics from their signatures.',
 }
